@@ -66,9 +66,9 @@ HARDENING = {
                             "arguments after an @file; a second Parse on the same CmdLine, naming a response file again",
     "6 history shapes": "empty vector, only `--`, only an @file, empty file, file of blank lines, the same option "
                         "many times, same file twice (fatal), built-ins with user options, both Parse calls",
-    "7 oracle independence": "integer/bool/string acceptance and values come from the Lean model; float and duration "
-                             "values from strconv / time.ParseDuration called by the harness with the DECLARED width "
-                             "(never through the library)",
+    "7 oracle independence": "integer/bool/string/float/duration acceptance and values come from the Lean model; only "
+                             "hexadecimal and digit-separated float texts from strconv called by the generator with the "
+                             "DECLARED width (never through the library)",
     "8 hangs and crashes": "children: 5 s limit, one retry, stream stops after three hangs; in-process lines: 8 s "
                            "watchdog then a child; panics are reported as `panic`",
     "9 no false alarms": "message and usage wording, capacity and contents of the caller's array behind the vector, "
@@ -76,14 +76,50 @@ HARDENING = {
 }
 
 
+FACTS_TEMPLATE = """/-! GENERATED by vlib/C10.py on every run of `./check C10` (deleted and rewritten): constants of the Go toolchain the
+    harness was built with, printed by `harness facts`.  Do not edit. -/
+namespace Generated.C10
+
+/-- `bufio.MaxScanTokenSize` -/
+def maxScanTokenSize : Nat := %d
+
+end Generated.C10
+"""
+
+
+def _facts(ctx):
+    """lean/Generated/C10Facts.lean: bufio.MaxScanTokenSize as the compiler of the harness sees it (Cmd.maxToken reads it:
+    a toolchain with another value re-instantiates model, lemmas and long-line streams instead of diverging)."""
+    import os
+    import subprocess
+    from . import core
+    path = os.path.join(core.LEAN, "Generated", "C10Facts.lean")
+    exe = ctx.harness_bin.get("harness")
+    if not exe:
+        return
+    out = subprocess.run([exe, "facts"], stdout=subprocess.PIPE, text=True, timeout=60).stdout
+    vals = dict(l.split() for l in out.splitlines() if len(l.split()) == 2)
+    n = int(vals["maxScanTokenSize"])
+    text = FACTS_TEMPLATE % n
+    # replaced on every run (atomically: a concurrent check against another working tree reads either version, and both
+    # are derived from the same toolchain)
+    tmp = path + ".tmp%d" % os.getpid()
+    open(tmp, "w").write(text)
+    os.replace(tmp, path)
+    ctx.extra["generated_facts"] = {"lean/Generated/C10Facts.lean": {"maxScanTokenSize": n, "source": "harness facts (bufio.MaxScanTokenSize of the Go toolchain)"}}
+    ctx.checker_cmds.append("harness facts > lean/Generated/C10Facts.lean   (bufio.MaxScanTokenSize = %d)" % n)
+
+
 def run(ctx):
     ctx.modelled += [
         "strings are byte lists; `GeneralValue.Set` is transcribed case by case (Cmd.setVar: ParseBool table, "
         "ParseInt/ParseUint base 0 with prefixes, underscore rule and the bit size of the kind, string, scalar "
         "overwrite / slice append) and the driver prints the store of option variables obtained by applying the Set "
-        "calls of the run in order (Cmd.applySets); for float32, float64 and time.Duration the results of "
-        "strconv.ParseFloat / time.ParseDuration on every string that can reach `Set` are supplied on the operation "
-        "line by the generator (section R)",
+        "calls of the run in order (Cmd.applySets); float32 / float64 values are COMPUTED by the model (Cmd.floatVal: "
+        "SoftFloat.parse of Model/EvalSoftFloat.lean - decimal literals, inf, nan, correctly rounded at the declared "
+        "width, overflow refused - compared bit for bit), time.Duration values by a transcription of time.ParseDuration "
+        "(Cmd.parseDuration, fractions through the float64 model); only hexadecimal floats and float texts with digit "
+        "separators still take the strconv result from the operation line (section R)",
         "response files are a finite map path -> lines; the harness writes them into a temporary directory, either as "
         "LF-terminated lines or from raw bytes (CRLF, missing final newline, blank lines, lone CR) which the model "
         "splits like bufio.Scanner (Cmd.linesOf) and refuses as a whole when a line fills the scanner's 64 KiB buffer "
@@ -102,7 +138,8 @@ def run(ctx):
         "arguments, exit status (1 = fatal or help, 0 = version), that the exit went through atexit.Exit",
     ]
     ctx.assumptions += ["response-file arguments contain no newline",
-                        "bufio.MaxScanTokenSize = 65536 (Cmd.maxToken; the long-line streams straddle it on every run)"]
+                        "floating-point texts in hexadecimal or with digit separators are converted by strconv (oracle "
+                        "section R); every other float text and every duration text is converted by the model"]
     ctx.extra["not_claimed_observations"] = [
         "a first positional that starts with `-` (other than a lone `-`) or `@` without a preceding `--` is an option / response file by "
         "construction",
@@ -112,12 +149,13 @@ def run(ctx):
     ctx.extra["hardening_audit"] = HARDENING
     import time
     t0 = time.time()
-    ctx.lean(props=["Props.C10"], drivers=["drv_c10"])
-    t1 = time.time()
     ctx.harness("./cmd/c10")
+    t1 = time.time()
+    _facts(ctx)
+    ctx.lean(props=["Props.C10"], drivers=["drv_c10"])
     t2 = time.time()
-    ctx.extra["phase_seconds"] = {"lean (incl. waiting for the shared Lean lock)": round(t1 - t0, 1),
-                                  "go build": round(t2 - t1, 1)}
+    ctx.extra["phase_seconds"] = {"lean (incl. waiting for the shared Lean lock)": round(t2 - t1, 1),
+                                  "go build": round(t1 - t0, 1)}
     ctx.diff(area="parse", driver="drv_c10", n={"quick": 60000, "thorough": 800000}, shards=14,
              trivial=_trivial, tagger=_tag,
              theorem="C10.parse_render / response_split* / malformed_* / exit_after_history (Props/C10.lean) are about the model; "
